@@ -3,8 +3,35 @@ module verif
 go 1.26
 
 require (
+	git.apache.org/thrift.git v0.13.0
 	github.com/henrylee2cn/erpc/v6 v6.0.0
 	simrt v0.0.0
+)
+
+require (
+	github.com/cheekybits/genny v1.0.0 // indirect
+	github.com/gogo/protobuf v1.2.1 // indirect
+	github.com/golang/protobuf v1.4.2 // indirect
+	github.com/henrylee2cn/ameda v1.3.6 // indirect
+	github.com/henrylee2cn/cfgo v0.0.0-20180417024816-e6c3cc325b21 // indirect
+	github.com/henrylee2cn/goutil v0.0.0-20200416032639-974f5b4094a2 // indirect
+	github.com/klauspost/cpuid v1.2.2 // indirect
+	github.com/klauspost/reedsolomon v1.9.3 // indirect
+	github.com/lucas-clemente/quic-go v0.18.0 // indirect
+	github.com/marten-seemann/qtls-go1-15 v0.1.0 // indirect
+	github.com/pkg/errors v0.8.1 // indirect
+	github.com/templexxx/cpu v0.0.1 // indirect
+	github.com/templexxx/xorsimd v0.4.1 // indirect
+	github.com/tidwall/gjson v1.2.2 // indirect
+	github.com/tidwall/match v1.0.1 // indirect
+	github.com/tidwall/pretty v1.0.0 // indirect
+	github.com/tjfoc/gmsm v1.0.1 // indirect
+	github.com/xtaci/kcp-go/v5 v5.5.12 // indirect
+	golang.org/x/crypto v0.0.0-20200622213623-75b288015ac9 // indirect
+	golang.org/x/net v0.0.0-20200707034311-ab3426394381 // indirect
+	golang.org/x/sys v0.0.0-20200519105757-fe76b779f299 // indirect
+	google.golang.org/protobuf v1.23.0 // indirect
+	gopkg.in/yaml.v2 v2.3.0 // indirect
 )
 
 replace simrt => /verif/simrt
